@@ -15,6 +15,7 @@ func init() {
 			"PV-WHOLE: Err and Close visit every source and aggregate every result",
 			"the openLog origin rule (each container is read under its own id)",
 			"ERR-PROP frame size: no failure exit of the frame decoder depends on the frame's size",
+			"PV-WHOLE openLog: every successful return follows the ContainerLogs request",
 		},
 		NotDecided: []string{"correctness of container/heap", "global sortedness (follows from the decided protocol + heap correctness + per-source order, argued in DESIGN.md)", "the race detector's dynamic view"},
 		Rules: func(r *Run) {
@@ -27,6 +28,7 @@ func init() {
 			ruleRecordOrigin(r)
 			ruleOpenLog(r)            // each container is read under its own id
 			ruleFrameSizeNotJudged(r) // one stream failing on a long line ends the merged stream of all containers
+			ruleOpenLogAlwaysAsks(r)
 		},
 	})
 }
